@@ -191,7 +191,12 @@ func (g *Gen) issueAmount(p int) string {
 	case 3:
 		return FmtDec(unit(p), p)
 	case 4: // very large (wide domain)
-		if g.R.Chance(0.08) || ((g.W.Property == "C12" || g.W.Property == "C06") && g.R.Chance(0.3)) {
+		// (astronomic amounts make every observation of the state slow: they are drawn where order
+		// quantities and conservation are the subject, not everywhere - see DESIGN 12.2)
+		astro := g.W.Property == "C12" || g.W.Property == "C06" || (g.W.Property == "C01" && g.Trace != nil && g.Trace.Tier == "quick")
+		// (the draws are made in any case, so that runs which never hit this branch keep their streams)
+		hit := g.R.Chance(0.08) || ((g.W.Property == "C12" || g.W.Property == "C06") && g.R.Chance(0.3))
+		if hit && astro {
 			// as large as a decimal string can say it: an exponent at the edge of what the decimal library allows
 			g.W.Probe("amount_with_exponent_near_100000")
 			return Pick(g.R, []string{"1e100000", "2e100000", "4e99999", "3e99990"})
